@@ -16,7 +16,8 @@ RULE = (
     "extractor in get_extractors(s). (b) differential: generated documents x extractor lists (full list, random "
     "sub-lists seeded with the extractors relevant to the text, sub-lists with a custom extractor); oracle: "
     "AhocorasickTokenizer(extractors=L).tokenize(t) equals Tokenizer(extractors=L).tokenize(t) token by token "
-    "(type, offsets, text, groups, editions in order, short) and index by index. Non-trivial: (a) a string that "
+    "(type, offsets, text, groups, editions in order, short) and index by index; plus an enumerated family of long texts "
+    "(1K ... 128K characters of filler with and without blanks, then a token straddling a power-of-two / round offset). Non-trivial: (a) a string that "
     "matches its pattern; (b) the filter skipped >= 1 extractor that has strings and kept >= 1; distinct = distinct case"
 )
 ASSUMPTIONS = [
@@ -170,7 +171,17 @@ def eval_diff(case):
     from eyecite.tokenizers import AhocorasickTokenizer, Tokenizer
 
     res = Res()
-    text = case["text"]
+    if case.get("kind") == "difflong":
+        # long text described compactly: `unit` repeated up to offset at - j, then the token, then a short tail
+        unit, at, j, tok = case["unit"], case["at"], case["j"], case["tok"]
+        if not (unit and 0 <= j <= len(tok) + 1 and at - j - 1 > 0):
+            res.label("out-of-domain")
+            return res
+        n = at - j - 1
+        text = (unit * (n // len(unit) + 1))[:n] + "\n" + tok + "\nthe end"
+        res.label("long-text")
+    else:
+        text = case["text"]
     ex = G["EXTRACTORS"]
     if case.get("full"):
         L = list(ex)
@@ -216,7 +227,7 @@ def eval_diff(case):
             why = "token-extra"
         else:
             why = "other"
-        res.v(f"stream-differs:{why}", f"at token {i}: reference {x!r} vs filtered {y!r}")
+        res.v(f"stream-differs:{why}", f"at token {i}: reference {x!r} vs filtered {y!r}" + (f" [long text: unit {case['unit']!r} up to offset {case['at'] - case['j'] - 1}, then {case['tok']!r}]" if case.get("kind") == "difflong" else ""))
     elif [(i, _tokkey(t)) for i, t in ref[1]] != [(i, _tokkey(t)) for i, t in got[1]]:
         res.v("index-list-differs", f"{ref[1]!r} vs {got[1]!r}")
     sel = call(ac_t.get_extractors, text)
@@ -227,6 +238,8 @@ def eval_diff(case):
         if skipped and kept:
             res.nontrivial = True
             res.label("filter-skipped-and-kept")
+        if case.get("kind") == "difflong":
+            res.nontrivial = True
     return res
 
 
@@ -245,6 +258,21 @@ def _sub_cases():
         st.sampled_from([0, 5, 7, 9, 10]),
         st.sampled_from([0, 0, 1, 2, 4, 8, 15]),
     )
+
+
+def _long_items(tier):
+    """Tokens straddling offsets at which a block-wise scan would cut the text (powers of two, round numbers), after
+    filler with and without blanks (a 64K stretch without any blank is what a table of authorities looks like)."""
+    ats = [2 ** k for k in range(10, 18)] + [100000]
+    if tier != "quick":
+        ats += [3 * 65536, 2 ** 18, 2 ** 20]
+    out = []
+    for unit in ["x\n", "word ", "ab\tcd\n", "\u00e9\n", "\u0130x\n"]:
+        for tok in ["supra", "Id.", "See", "ibid.", "1 U.S. 1", "In re", "\u00a7 5"]:
+            for at in ats:
+                for j in sorted({0, 1, 2, len(tok) - 1, len(tok)}):
+                    out.append({"kind": "difflong", "unit": unit, "tok": tok, "at": at, "j": j, "keep": 10, "salt": 0})
+    return out
 
 
 def _full_cases():
@@ -266,4 +294,5 @@ def phases(tier):
         Phase("inclusion", "enum", items=items, exhaustive=False, chunk=60),
         Phase("diff-sublists", "gen", strategy=_sub_cases, n=n_sub),
         Phase("diff-full", "gen", strategy=_full_cases, n=n_full),
+        Phase("diff-long-texts", "enum", items=lambda: _long_items(tier), exhaustive=True, distinct=True, chunk=8),
     ]
